@@ -168,9 +168,19 @@ def sc_stacking(cfg):
     def scenario(C):
         As = [C.int(f"a{i}") for i in range(N)]
         models = [(NoTransform if cfg["wrap"] else FitXYW)(a) for a in As]
+        if cfg.get("int_first"):
+            # the first member answers an integer-typed array (class labels), the others reals
+            m0 = models[0]
+            orig = m0.predict
+            if C.symbolic:
+                m0.predict = lambda Xa: sx.int_array([sx.strunc(v) for v in orig(Xa)])
+            else:
+                m0.predict = lambda Xa: numpy.array([int(v) for v in orig(Xa)], dtype=numpy.int64)
         meth = METHODS[cfg["method"]] if cfg["wrap"] else None
         est = S(models, meth) if cfg["wrap"] else S(models)
         X, y, w = _data(C, n, "t")
+        mod = loader.load("sklapi.sklearn_base_transform_stacking")
+        stack_np = harness.patched(mod, numpy=sx.TypedNumpy()) if C.symbolic else harness.patched(mod)
         r = est.fit(X, y)
         C.true(r is est, "fit-returns-self")
         for m in models:
@@ -178,11 +188,15 @@ def sc_stacking(cfg):
         Xq, _, _ = _data(C, n, "q")
         eff = meth if cfg["wrap"] else "transform"
         rows = [[] for _ in range(n)]
-        for a in As:
+        for k, a in enumerate(As):
             r_ = ref(eff, trained(a, X, y, None), Xq)
+            if k == 0 and cfg.get("int_first"):
+                r_ = [[sx.strunc(v) if C.symbolic else int(v) for v in row] for row in r_]
             for i in range(n):
                 rows[i].extend(r_[i])
-        _cells(C, est.transform(Xq), rows, "transform==column-concatenation-in-member-order")
+        with stack_np:
+            got = est.transform(Xq)
+        _cells(C, got, rows, "transform==column-concatenation-in-member-order")
 
     return scenario
 
@@ -234,7 +248,47 @@ def sc_transfer(cfg):
     return scenario
 
 
-SCEN = dict(learner=sc_learner, stacking=sc_stacking, transfer=sc_transfer)
+class InPlace(BaseEstimator):
+    """a model that, like SGD/partial_fit learners, updates its fitted arrays IN PLACE when trained again"""
+
+    def __init__(self, a=1):
+        self.a = a
+
+    def fit(self, X, y=None, sample_weight=None):
+        if not hasattr(self, "coef_"):
+            self.coef_ = numpy.zeros(2)
+            self.intercept_ = numpy.zeros(1)
+        self.coef_ += numpy.asarray(X, dtype=float).sum(axis=0)[:2]
+        self.intercept_ += 1.0
+        return self
+
+    def predict(self, X):
+        return numpy.asarray(X, dtype=float)[:, :2] @ self.coef_ + self.intercept_[0]
+
+
+def sc_transfer_inplace(cfg):
+    TT = loader.load("mlmodel.transfer_transformer").TransferTransformer
+
+    def scenario(C):
+        k = 1 + C.choice("k", 3)
+        X0 = numpy.arange(6.0).reshape(3, 2) + k
+        X1 = numpy.arange(6.0).reshape(3, 2) * 2 - k
+        inner = InPlace().fit(X0)
+        coef0, icpt0 = inner.coef_.copy(), inner.intercept_.copy()
+        pred0 = inner.predict(X0).copy()
+        est = TT(inner, method="predict", copy_estimator=True, trainable=cfg["trainable"])
+        est.fit(X1, numpy.zeros(3))
+        C.true(est.estimator_ is not inner and not numpy.shares_memory(est.estimator_.coef_, inner.coef_), "copy_estimator:the-copy-shares-no-fitted-buffer-with-the-original")
+        C.true(numpy.array_equal(inner.coef_, coef0) and numpy.array_equal(inner.intercept_, icpt0) and numpy.array_equal(inner.predict(X0), pred0), "copy_estimator:original-object-never-modified", detail=(inner.coef_.tolist(), coef0.tolist()))
+        # the owner trains the original further: a frozen copy keeps its predictions
+        snap = est.transform(X0).copy()
+        inner.fit(X1)
+        C.true(numpy.array_equal(est.transform(X0), snap), "copy_estimator:the-copy-does-not-follow-the-original", detail="original trained in place after the wrapper was fitted")
+
+    return scenario
+
+
+SCEN = dict(learner=sc_learner, stacking=sc_stacking, transfer=sc_transfer, transfer_inplace=sc_transfer_inplace)
 
 
 def run_config(cfg):
@@ -256,6 +310,10 @@ def configs(tier):
             for wrap, meths in ((True, (0, 1, 2)), (False, (3,))):
                 for m in meths:
                     out.append(dict(kind="stacking", N=N, rows=rows, wrap=wrap, method=m))
+    for N in (2, 3):
+        out.append(dict(kind="stacking", N=N, rows=2, wrap=True, method=0, int_first=True))
+    for trainable in (False, True):
+        out.append(dict(kind="transfer_inplace", trainable=trainable))
     for sig in SIGS:
         for copy in (True, False):
             for trainable in (False, True):
